@@ -82,11 +82,11 @@ props["C09"] = dict(title="Tokens are a faithful maximal-munch partition of the 
   thorough=[J("lexer","VH_step",n,c) for (n,c) in ((1,0),(2,0),(3,0),(5,0),(7,0),(8,0),(8,1),(8,3))]+[J("lexer","VH_whole",n) for n in (1,2,3)],
   selftest=[J("lexer","VH_selftest")])
 props["C10"] = dict(title="Numeric literals denote the correctly rounded value in either digit script",
-  bounds="isDigit on all 2^32 code points; transliteration of every single code point and of texts of <=3 (thorough 5) code points; the number branch of scanToken on n<=6 code points (extent, dot rule, ParseFloat applied to the transliterated lexeme, range error => diagnostic and no token); digit-script swap on n<=3 (thorough 5)",
-  assumptions=["NOT decided: that strconv.ParseFloat returns the nearest double and reports overflow (stdlib; uninterpreted). A change to the repo can break that clause only by not calling ParseFloat on the transliterated lexeme, which is checked"]+A_COMMON[:1],
-  quick=[J("lexer","VH_isDigit"), J("lexer","VH_translit1"), J("lexer","VH_translitN",3), J("lexer","VH_step",4,0), J("lexer","VH_step",6,0), J("lexer","VH_swap",3), J("lexer","VH_number",4)],
-  thorough=[J("lexer","VH_isDigit"), J("lexer","VH_translit1"), J("lexer","VH_translitN",5), J("lexer","VH_step",6,0), J("lexer","VH_step",8,0), J("lexer","VH_swap",5), J("lexer","VH_number",6), J(I,"VH_swapNum",2)],
-  only_ids="^(isDigit-.*|translit.*|number-.*|swap-.*|end|progress|literal-.*)$")
+  bounds="isDigit on all 2^32 code points; transliteration of every single code point and of texts of <=3 (thorough 5) code points; the number branch of scanToken on n<=6 code points (extent, dot rule, ParseFloat applied to the transliterated lexeme, range error => diagnostic and no token); digit-script swap on n<=3 (thorough 5); integer literals of 3 and 12 (thorough 18, 19) digits of either script against the exact rounding contract",
+  assumptions=["strconv.ParseFloat is uninterpreted except in VH_integer, where the stub carries its documented contract for integer numerals of <= 19 digits (round-to-nearest-even of the exact value), so 'denotes the nearest double' IS decided for integer literals up to 19 digits (12 in the quick tier) and any way of computing the literal must agree with it; fractions, longer literals and overflow detection remain strconv's (not decided)", "VH_integer uses the position-wise summary of ConvertBanglaDigitsToASCII justified by VH_translit1/VH_translitN (which run the real function)"]+A_COMMON[:1],
+  quick=[J("lexer","VH_isDigit"), J("lexer","VH_translit1"), J("lexer","VH_translitN",3), J("lexer","VH_step",4,0), J("lexer","VH_step",6,0), J("lexer","VH_swap",3), J("lexer","VH_number",4), J("lexer","VH_integer",3), J("lexer","VH_integer",12)],
+  thorough=[J("lexer","VH_isDigit"), J("lexer","VH_translit1"), J("lexer","VH_translitN",5), J("lexer","VH_step",6,0), J("lexer","VH_step",8,0), J("lexer","VH_swap",5), J("lexer","VH_number",6), J(I,"VH_swapNum",2), J("lexer","VH_integer",3), J("lexer","VH_integer",12), J("lexer","VH_integer",18), J("lexer","VH_integer",19)],
+  only_ids="^(isDigit-.*|translit.*|number-.*|swap-.*|end|progress|literal-.*|integer-.*)$")
 
 # ---------------- C11 / C12 / C13 ----------------
 props["C11"] = dict(title="Arrays are bounds-checked shared references; len/append/remove are pure sequence ops",
@@ -123,10 +123,10 @@ props["C15"] = dict(title="print writes each value faithfully, newline-terminate
   thorough=[J(I,"VH_print",s,r) for s in (0,1,2) for r in (0,1)]+[J(I,"VH_printNested",n,o) for n in (1,2) for o in (0,1)]+[J(I,"VH_binary",a,b,0) for (a,b) in ((0,0),(1,1),(2,1))],
   only_ids="^(print-.*|printed-.*|nested-.*|bin-string-result|bin-result-is-string)$")
 props["C16"] = dict(title="A value behaves the same however it was produced",
-  bounds="11 consumers (both operand positions of every binary operator, unary operators, condition, print alone / inside an array, array index, math built-in argument, object property round trip, delete key, self-equality) run on two host representations of the same value: string vs rune slice (1 code point; thorough 0-2), float64 vs int64, float64 vs int (|n| <= 2^53); representation pairs come from the reachable-kind inventory, so the check is as wide as the tree's representations",
+  bounds="11 consumers (both operand positions of every binary operator, unary operators, condition, print alone / inside an array, array index, math built-in argument, object property round trip, delete key, self-equality) run on two host representations of the same value: string vs rune slice (1 code point; thorough 0-2), float64 vs int64, float64 vs int (|n| <= 2^53), and the result of each of 16 producers (every math built-in, length, bitwise/shift/not, addition, modulo, concatenation, run on symbolic arguments) vs the canonical float64/string of the same value; representation pairs come from the reachable-kind inventory and from what the producers actually yield, so the check is as wide as the tree's representations",
   assumptions=["a pair that the tree cannot produce is not checked (premise false)"]+A_VALUES+A_COMMON[:3],
-  quick=[J(I,"VH_rel",c,1,w) for c in (0,1,2) for w in range(11)],
-  thorough=[J(I,"VH_rel",c,n,w) for c in (0,1,2) for w in range(11) for n in ((0,1,2) if c==0 else (1,))])
+  quick=[J(I,"VH_rel",c,1,w) for c in (0,1,2) for w in range(11)]+[J(I,"VH_rel",3,p,w) for p in range(16) for w in (0,3,4,6,7)],
+  thorough=[J(I,"VH_rel",c,n,w) for c in (0,1,2) for w in range(11) for n in ((0,1,2) if c==0 else (1,))]+[J(I,"VH_rel",3,p,w) for p in range(16) for w in range(11)])
 
 # ---------------- C17 ----------------
 props["C17"] = dict(title="Math built-ins compute their mathematical function; misuse is a reported error",
